@@ -251,7 +251,7 @@ func goToSMT(kind, printed string) string {
 
 func tryReplay(g *gen, o *Obligation, repo string) (string, bool) {
 	fn := g.fn
-	if fn.Parent() != nil || fn.Pkg == nil {
+	if fn == nil || fn.Parent() != nil || fn.Pkg == nil {
 		return "", false
 	}
 	pkg := fn.Pkg.Pkg
